@@ -103,24 +103,25 @@ CLAIMED["C16"] = ("effect extraction (E6) of the DHCPv6 builders and relay (de)c
 # second-round clauses (DESIGN §15): appended to the level text of the properties that gained them
 ADDENDA = {
  "C01": " Also: every key of the option map reaches the collecting append of the key sorter (only 82/255 bypass it). Also (round 5): every Lexer of the package is built big-endian and no little-/native-endian codec is referenced (byte-order rule).",
- "C02": " Also: the numeric value of every wire-enum constant (option codes, message types, DUID types, status codes) equals the IANA-assigned number in spec/constants.json. Also (round 5): label sets inside decoded options re-emit their original bytes only under an exact name comparison (shared C19-K1); byte-order rule; the explicit rejections of every DHCPv6 decoder equal the reviewed set spec/rejects.json (E8: an added value test that turns a well-formed input into an error, or a vanished one, is reported).",
+ "C02": " Also: the numeric value of every wire-enum constant (option codes, message types, DUID types, status codes) equals the IANA-assigned number in spec/constants.json. Also (round 5): label sets inside decoded options re-emit their original bytes only under an exact name comparison (shared C19-K1); byte-order rule; the explicit rejections of every DHCPv6 decoder equal the reviewed set spec/rejects.json (E8: an added value test that turns a well-formed input into an error, or a vanished one, is reported). Also (round 6): every return of the domain-name encoder ends with the zero byte (shared C19-K2); E8 also compares the conditional field stores of the decoders (a field left nil or replaced under a new condition).",
  "C03": " Also: a maybe-nil pointer result is not boxed into an interface without a nil test (typed nil); no encoder serialises the same sub-value or collection twice on a path (shared C09-K4). Bounds obligations the compiler leaves open go through a relational bounds prover (D10) before the ledger; ledger entries may require slots of the current wire schema (schema_slots).",
  "C04": " Also: the option Lexer is built over the parameter itself (nothing trimmed beforehand); every consumed instance reaches the store. Also: DHCPv4 wire-enum constants equal spec/constants.json. Also (round 5): the server-name and boot-file fields are cut at the first NUL and converted without re-encoding (shared C01-K2); byte-order rule; the explicit rejections of FromBytes and the option loop equal spec/rejects.json (E8).",
- "C05": " Also: wire-enum constants equal spec/constants.json; the 255-octet cap of the label decoder is a test on the length of the name being assembled. Also (round 5): byte-order rule; the explicit rejections (errors created, not handed on, with their guarding condition in additive normal form) of every decoder equal the reviewed set spec/rejects.json (E8) — both directions of 'accepted exactly when'.",
+ "C05": " Also: wire-enum constants equal spec/constants.json; the 255-octet cap of the label decoder is a test on the length of the name being assembled. Also (round 5): byte-order rule; the explicit rejections (errors created, not handed on, with their guarding condition in additive normal form) of every decoder equal the reviewed set spec/rejects.json (E8) — both directions of 'accepted exactly when'. Also (round 6): E8 conditional-store census — receiver-field stores of decoders under a value test equal the reviewed set.",
  "C06": " Also: length-field narrowing (C06-K5): every uintN(len(x)) written as a length is the length of raw field bytes or of a nested encoding whose encoder closure does not pad. One site violates it on the pinned tree and is a KNOWN FINDING (F9: (dhcpv6.Options).ToBytes, demonstrated in findings/F9-C06-length-overflow, not repairable without an API change). Also (round 5): byte-order rule over dhcpv4, dhcpv6, iana, rfc1035label.",
  "C07": " Also: options 82 and 255 are re-appended exactly when the key is present (presence flag or comma-ok), not when the value is non-nil. Also: DHCPv4 wire-enum constants equal spec/constants.json. Also (round 5): byte-order rule (the header encoder's Lexer is big-endian).",
  "C08": " Also: no decoder makes memory reachable from a package-level variable part of the value it produces (decoded messages share nothing with each other).",
- "C09": " Also: no allocation sized by an unvalidated wire length (K5); no decoder formats a byte slice derived from its input (K6); no accumulator grown through a capacity-clipped alias of itself. The repeated-ToBytes rule is interprocedural (helpers of the module are expanded at their call sites). Also (round 5, K7): no function on a recursion cycle of the decode closure hands the same input bytes to that cycle twice along one path (decoding stays linear in the nesting depth).",
+ "C09": " Also: no allocation sized by an unvalidated wire length (K5); no decoder formats a byte slice derived from its input (K6); no accumulator grown through a capacity-clipped alias of itself. The repeated-ToBytes rule is interprocedural (helpers of the module are expanded at their call sites). Also (round 5, K7): no function on a recursion cycle of the decode closure hands the same input bytes to that cycle twice along one path (decoding stays linear in the nesting depth). Also (round 6): K8 no decoder on a recursion cycle stores a copy of the bytes it hands to the recursion; K3 follows calls made in decode loops (callee reallocating, sized by its length, the collection it extends).",
  "C10": " Also: slice-typed Client state is never returned, stored or sent (accessors hand out copies); cancel pairing on every exit of send/SendAndRead and cancel-by-identity (shared with C11; defect F10 repaired in 9686be8); the receive buffer is a constant >= 1500 bytes. Filter rules are evaluated on the split graph, so nested ifs, && chains and switch cases are judged alike. Also (round 5): slice-typed Client state is never written through after construction (copy destination, element store, append onto a re-slice); on the split graph every way from the read back to the next read that avoids the delivery takes one of the stated rejection edges (no filter beyond decode error, opcode, hardware address, unknown transaction id), also through a delivery helper.",
- "C11": " Also: cancel removes only the entry this call registered (identity test; defect F10 found by this rule and repaired in 9686be8); the internal deadline sentinel is a distinct errors.New value. Also: only the internal per-try deadline sentinel leads to another try; every other result of a try, including the context's error, is returned at once (shared with C12).",
+ "C11": " Also: cancel removes only the entry this call registered (identity test; defect F10 found by this rule and repaired in 9686be8); the internal deadline sentinel is a distinct errors.New value. Also: only the internal per-try deadline sentinel leads to another try; every other result of a try, including the context's error, is returned at once (shared with C12). Also (round 6): the lock discipline C10-K5 (pendingMu released at every return of every function that takes it, deferred unlocks modelled) is evaluated under C11 as well.",
  "C12": " Also: the internal deadline sentinel is a distinct errors.New value; in the constructor no field the retry driver reads is written after an option ran (defaults first). Also: no path from the deadline edge to the next try avoids the doubling; every in-repo Logger.PrintMessage implementation writes nothing reachable from the message it prints (E3). Also (round 5, K5): registration precedes transmission and the receive loop is left only on a read error (shared C10-K1/K2/K3): a reply arriving during any try reaches the waiting call.",
- "C13": " Also: the receive loops deliver messages that do not alias the per-datagram read buffer and decoded option values are exactly the bytes consumed for their code (shared with C10/C01); message-type constants equal spec/constants.json.",
- "C14": " Also (K7): the handler field Serve reads is set only to the caller's handler or to a wrapper that calls it exactly once with its own arguments on every path. Also: the decoder called per datagram returns a value sharing no memory with package-level variables. Also (round 5, K8): the panic obligations (E4, including results used or handed on although the error beside them was dropped, followed into callees that dereference them) of the serve methods and of what they call synchronously outside the decoder closure are closed; b[:n] with n returned by ReadFrom into b is discharged by the io contract (D12).",
- "C15": " Also: decoded option values are append(previous value, consumed chunk) — a zero-length option stays nil, which 'copied when present' depends on; message-type constants equal spec/constants.json.",
- "C16": " Also: DHCPv6 message-type constants equal spec/constants.json. Also (round 5, K8): the header decoders of messages and relay messages reject exactly the reviewed conditions (E8), so a relay chain of any depth survives the wire.",
+ "C13": " Also: the receive loops deliver messages that do not alias the per-datagram read buffer and decoded option values are exactly the bytes consumed for their code (shared with C10/C01); message-type constants equal spec/constants.json. Also: E6 recipes are compared with parameters named by position (a rename is invisible, exchanging two parameters is not).",
+ "C14": " Also (K7): the handler field Serve reads is set only to the caller's handler or to a wrapper that calls it exactly once with its own arguments on every path. Also: the decoder called per datagram returns a value sharing no memory with package-level variables. Also (round 5, K8): the panic obligations (E4, including results used or handed on although the error beside them was dropped, followed into callees that dereference them) of the serve methods and of what they call synchronously outside the decoder closure are closed; b[:n] with n returned by ReadFrom into b is discharged by the io contract (D12). Also (round 6): Close performs no blocking operation (WaitGroup.Wait, channel receive, blocking select, sleep) — Serve returns through its deferred Close.",
+ "C15": " Also: decoded option values are append(previous value, consumed chunk) — a zero-length option stays nil, which 'copied when present' depends on; message-type constants equal spec/constants.json. Also (round 6, K8): the option store the modifiers end in (Options.Update via UpdateOption) writes its entry on every path, keyed by the option's code with the option's encoding.",
+ "C16": " Also: DHCPv6 message-type constants equal spec/constants.json. Also (round 5, K8): the header decoders of messages and relay messages reject exactly the reviewed conditions (E8), so a relay chain of any depth survives the wire. Also: E6 recipes are compared with parameters named by position.",
  "C17": " Also: an accessor's result derives only from its option lookup, constants and non-receiver parameters (K6); the shared string helper returns string(raw) unchanged. Also: string accessors return the decoded string or strings.TrimRight(s, NUL) of it; DHCPv4 option-code constants equal spec/constants.json. Also (round 5): every exported Opt* constructor stores the caller's argument itself (converted, wrapped in a composite literal, or handed whole to a reviewed helper), not a value assembled by method calls on a local (K9); byte-order rule; explicit rejections of the value decoders equal spec/rejects.json (K8).",
  "C18": " Also (K9): header slices obtained from the Lexer stay valid (buffer capacity equals the bytes written, or every use precedes later growth). Also (K8): no 16-bit addition or subtraction has a checksum-derived operand outside the two summation routines (a plain add drops the end-around carry). isValid and the reader guards are judged on the split graph. Also (round 5): byte-order rule for the raw-frame reader and writer.",
  "C20": " Also: the clients' in-repo Logger.PrintMessage implementations write nothing reachable from the message they print.",
+ "C19": " Also (round 6): every return of the name encoder is the terminating append(…, 0) or the literal {0}.",
 }
 
 NA_REASON = {}
